@@ -38,6 +38,11 @@ func (c *c14Case) bad() string {
 	if c.Bad == "scan" {
 		return "CREATE TABLE broken (c text DEFAULT 'x);"
 	}
+	if c.Bad == "inspect" {
+		// accepted by the engine, rejected by the inspector (a self reference to a column that does not exist):
+		// the command fails AFTER the statement ran, while the dev database is being read
+		return "CREATE TABLE selfref (id integer PRIMARY KEY, a integer, FOREIGN KEY (a) REFERENCES selfref (zzz));"
+	}
 	return c14Bad
 }
 
@@ -51,6 +56,9 @@ var c14DevSetup = map[string][]string{
 	// only virtual tables (and their shadow tables): a full-text index with rows, an R*Tree
 	"virtual-fts":   {"CREATE VIRTUAL TABLE notes USING fts4(body)", "INSERT INTO notes (body) VALUES ('remember the milk'), ('call home')"},
 	"virtual-rtree": {"CREATE VIRTUAL TABLE boxes USING rtree(id, minx, maxx)", "INSERT INTO boxes VALUES (1, 0.0, 1.0)"},
+	// user tables whose names only LOOK like the engine's internal ones (sqlite_..., libsql_...)
+	"table-sqlitedata": {"CREATE TABLE sqlitedata (id integer PRIMARY KEY, v text)", "INSERT INTO sqlitedata VALUES (1,'one')"},
+	"table-libsqlx":    {"CREATE TABLE libsqlxcache (id integer PRIMARY KEY)", "INSERT INTO libsqlxcache VALUES (7)"},
 }
 
 // statements of the migration directory (3 files) and of the desired schema.
@@ -159,7 +167,7 @@ func c14Cases(e *Env) []c14Case {
 	cmds := []string{"migrate-diff-sql", "migrate-diff-hcl", "migrate-validate", "migrate-lint", "migrate-lint-checkpoint", "migrate-validate-checkpoint", "schema-apply-sql", "schema-apply-hcl", "schema-diff", "schema-inspect",
 		// the desired state given as a DIRECTORY of SQL schema files (no atlas.sum): replayed on the dev database like a migration directory
 		"migrate-diff-sqldir", "schema-apply-sqldir", "schema-diff-sqldir"}
-	devs := []string{"missing", "empty", "table", "table-index-trigger", "view", "revisions", "two-tables", "virtual-fts", "virtual-rtree"}
+	devs := []string{"missing", "empty", "table", "table-index-trigger", "view", "revisions", "two-tables", "virtual-fts", "virtual-rtree", "table-sqlitedata", "table-libsqlx"}
 	objsets := [][]string{{"table"}, {"table", "index", "view", "trigger"}, {"table", "txn"}}
 	var out []c14Case
 	for _, cmd := range cmds {
@@ -191,6 +199,10 @@ func c14Cases(e *Env) []c14Case {
 						if !strings.HasSuffix(cmd, "-checkpoint") {
 							cc.Bad = "scan"
 							out = append(out, cc)
+							if k == n-1 || k == 0 {
+								cc.Bad = "inspect"
+								out = append(out, cc)
+							}
 						}
 					}
 				}
